@@ -145,8 +145,10 @@ class CRef(refsem.Ref):
         if isinstance(e, bool) or isinstance(b, bool):
             raise OutOfRange()
         if not self.floating:
-            if e < 0 or e > 12:
+            if e > 12 or (e < 0 and (b == 0 or e < -4)):
                 raise OutOfRange()
+            # a negative constant exponent goes through pow(): a double (1 / b), also for an
+            # integer base
         else:
             if b <= 0 and not (isinstance(e, int) or float(e).is_integer()):
                 raise OutOfRange()
@@ -783,6 +785,13 @@ class C14(Check):
                 yield ("Sum", T(("Quotient", ("Product", T(n, c)), C(2)), Y))
                 yield ("Quotient", ("Sum", T(n, c)), C(4))
                 yield ("If", ("Comparison", ("Quotient", n, c), S("<"), Y), X, Y)
+        # negative constant exponents with integer-typed bases: 4 ** -1 is 0.25
+        for e in (C(-1), C(-2), C(-1.0)):
+            for b in (X, ("Sum", T(X, Y)), C(5), ("Product", T(X, C(2)))):
+                yield ("Power", b, e)
+                yield ("Product", T(Y, ("Power", b, e)))
+                yield ("Sum", T(("Power", b, e), Y))
+                yield ("CommonSubexpression", ("Power", b, e), ("none",), S("pymbolic_eval"))
 
     def gen_negsums(self):
         """Sums whose terms are (partly or all) products with a leading -1 -- the printer turns
